@@ -412,10 +412,16 @@ inline void check_geocoords_reset(const std::string& s, bool centerp, bool longf
   if (g.Zone() != Z.zone) k.viol("oracle:C10/geocoords-reset/utm-zone-value", cls, det().i("zone", g.Zone()).i("want", Z.zone));
   if (E.st == rd::ACCEPT && E.sp == rd::FINITE && !vh::same_bits(g.Easting(), E.v)) k.viol("oracle:C10/geocoords-reset/utm-easting-value", cls, det().f("easting", g.Easting()).f("want", E.v));
   if (N.st == rd::ACCEPT && N.sp == rd::FINITE) {
+    // hemisphere rule read off the text: y = northing - false northing; y > 0 north, y < 0 south, y == 0 keeps the
+    // hemisphere token (either hemisphere is allowed on the equator).  UPS (zone 0) never changes hemisphere.
     double n = g.Northing();
-    bool same = vh::same_bits(n, N.v) && g.Northp() == Z.northp;
-    bool flipped = g.Zone() != 0 && g.Northp() != Z.northp && std::fabs(n - (N.v + (Z.northp ? 1 : -1) * 10000000.0)) <= rd::ulp(1e7);
-    if (!(same || flipped)) k.viol("oracle:C10/geocoords-reset/utm-northing-or-hemisphere", cls, det().f("northing", n).f("want", N.v).b("northp", g.Northp()));
+    double y = Z.zone == 0 ? 0 : N.v - (Z.northp ? 0 : 10000000.0);
+    bool keep = vh::same_bits(n, N.v) && g.Northp() == Z.northp;
+    bool flip = Z.zone != 0 && g.Northp() != Z.northp && std::fabs(n - (N.v + (Z.northp ? 1 : -1) * 10000000.0)) <= rd::ulp(1e7);
+    bool want_flip = Z.zone != 0 && ((y > 0 && !Z.northp) || (y < 0 && Z.northp));
+    bool undecided = std::fabs(y) < 1e-6 && y != 0;      // the latitude may underflow to zero
+    if (!(undecided ? (keep || flip) : (want_flip ? flip : keep)))
+      k.viol("oracle:C10/geocoords-reset/utm-northing-or-hemisphere", cls, det().f("northing", n).f("want", N.v).b("northp", g.Northp()).b("text_northp", Z.northp).b("want_flip", want_flip));
   }
   k.event("reset: UTM/UPS triple accepted");
 }
